@@ -241,6 +241,56 @@ def family(chk, tier, seed, only=None):
     if traces is None:
         chk.machinery_errors.append("recording evaluate_bounded runs failed")
         return
+    # 3b. far more answers than any small case has (a cap on the number of results would show here): a table of
+    # N facts enumerated through evaluate_bounded; the reference is the closed form "the facts in assertion
+    # order", which is what the machine computes (checked against the machine for a small N)
+    if not only:
+        N = 70000
+        small = {"scripts": {}, "keys": [], "steps": [[{"op": "assertn", "e": 1, "name": "row", "lo": 0, "n": 50, "atEnd": True}],
+                                                      [{"op": "solve", "e": 1, "r": 1, "goal": C("row", V(0)), "qnv": 1, "k": 0}]]}
+        srecs, _ = chk.machine_family("table-reference-closed-form", [small], max_steps=2000)
+        got = srecs[0]["hist"][-1]["obs"].get("answers") if srecs else None
+        if got != [[{"t": "i", "n": str(i)}] for i in range(50)]:
+            chk.machinery_errors.append("closed-form reference for a table of facts differs from the machine")
+        out2 = {}
+
+        def body2():
+            from .. import real
+            sys.setrecursionlimit(1000)
+            yp = real.YP()
+            for i in range(N):
+                yp.assert_fact(yp.atom("row"), [i])
+            for raise_at in (0, N - 3):
+                v = yp.variable()
+                q = yp.query("row", [v])
+                events = [{"ev": "begin", "limit": 400, "before": sys.getrecursionlimit()}]
+                cnt = [0]
+
+                class Boom(Exception):
+                    pass
+
+                def proj(_):
+                    cnt[0] += 1
+                    a = real.project_tuple([v])
+                    events.append({"ev": "answer", "ans": a, "raises": cnt[0] == raise_at})
+                    if cnt[0] == raise_at:
+                        raise Boom()
+                    return a
+                escaped, result = "none", []
+                try:
+                    result = yp.evaluate_bounded(q, proj, recursion_limit=400)
+                except Boom:
+                    escaped = "proj"
+                events.append({"ev": "end", "after": sys.getrecursionlimit(), "bound": len(real.bound_registry()), "escaped": escaped, "result": result})
+                sys.setrecursionlimit(1000)
+                out2.setdefault("traces", []).append({"ref": [[{"t": "i", "n": str(i)}] for i in range(N)], "complete": True, "shallow": True, "events": events,
+                                                      "goal": "row(V0) over %d facts" % N, "limit": 400, "raise_at": raise_at})
+        t2 = threading.Thread(target=body2)
+        t2.start(); t2.join()
+        if "traces" not in out2 or len(out2["traces"]) != 2:
+            chk.machinery_errors.append("recording the large table failed")
+        else:
+            traces.extend(out2["traces"])
     # 4. TLC validates every trace
     fn = os.path.join(tlc.WORK, "C17-traces-%d.json" % os.getpid())
     with open(fn, "w") as f:
